@@ -30,7 +30,7 @@ def new_program(rom="low", syms=None):
     from a816.program import Program
 
     p = Program()
-    p.resolver.rom_type = {"low": RomType.low_rom, "high": RomType.high_rom}[rom]
+    p.resolver.rom_type = {"low": RomType.low_rom, "low2": RomType.low_rom_2, "high": RomType.high_rom}[rom]
     for k, v in (syms or {}).items():
         p.resolver.current_scope.add_symbol(k, v)
     return p
